@@ -974,3 +974,18 @@ func OpCoq(o OpObs, memoTerm string) string {
 }
 
 var _ = strings.ToUpper
+
+// Parse is the real JSONParser.Parse.
+func (w *W) Parse(memo string) (*core.Payload, error) { return w.parser.Parse(memo) }
+
+// ParsePayload is the real IBCParser.ParsePayload (Parse, then Payload.Validate).
+func (w *W) ParsePayload(memo string) (p *core.Payload, err error) {
+	p, err = w.parser.Parse(memo)
+	if err != nil {
+		return nil, err
+	}
+	if err := p.Validate(); err != nil {
+		return p, err
+	}
+	return p, nil
+}
